@@ -145,8 +145,9 @@ def residue_defs():
     return out
 
 
-def top_for(defs, resnames, extra_inter=None):
-    """one molecule: residues in a chain, residue k = defs[k], bonded first atom to first atom"""
+def top_for(defs, resnames, extra_inter=None, reverse_lines=False):
+    """one molecule: residues in a chain, residue k = defs[k], bonded first atom to first atom; reverse_lines: the lines of
+    every directive in reverse order (bonds between residues first, then the last residue's, ... - the order is free)"""
     lines = ["[ defaults ]", "1 2 no 1.0 1.0", "[ atomtypes ]", "P 72.0 0.0 A 0.30 4.0", "[ moleculetype ]", "M 1", "[ atoms ]"]
     first, off = [], 0
     bonds, angles = [], []
@@ -159,6 +160,8 @@ def top_for(defs, resnames, extra_inter=None):
         off += len(d["names"])
     for a, b in zip(first[:-1], first[1:]):
         bonds.append((a, b, 0.4))
+    if reverse_lines:
+        bonds, angles = bonds[::-1], angles[::-1]
     if bonds:
         lines.append("[ bonds ]")
         lines += [f"{a} {b} 1 {l} 1000" for a, b, l in bonds]
@@ -321,6 +324,23 @@ def judge_templates(top, records, defs, resnames, case1, user=None):
                     dev = min(dev, 360 - dev)
                     if not dev <= 5 + 1e-6:
                         bad("optimised-template-meets-targets", f"improper {it.atoms}: deviation {dev:.2f} deg > 5 although reported optimised")
+        if ri % 2:
+            # ... and the targets are those of the residue as the input defines it (not only what polyply copied into the block
+            # it optimised): the template must meet all bonds / angles of one of the input residues with these atom names
+            names = sorted(blk.nodes[a]["atomname"] for a in blk.nodes)
+            byname = {blk.nodes[a]["atomname"]: co[a] for a in blk.nodes if a in co}
+            cands = [d for d in defs if sorted(d["names"]) == names and len(set(d["names"])) == len(d["names"])]
+            worst = []
+            for d in cands:
+                dev = 0.0
+                for a, b, l in d["bonds"]:
+                    dev = max(dev, abs(np.linalg.norm(byname[d["names"][a]] - byname[d["names"][b]]) - l) / 0.05)
+                for a, b, c, v in d["angles"]:
+                    dev = max(dev, abs(angle_deg(byname[d["names"][a]], byname[d["names"][b]], byname[d["names"][c]]) - v) / 5.0)
+                worst.append(dev)
+            if cands and len(byname) == len(names) and not min(worst) <= 1.0 + 1e-6:
+                bad("optimised-template-meets-targets", f"template with atoms {names} is reported optimised but misses the bond / angle targets of every input residue "
+                    f"with these atoms (smallest worst deviation {min(worst):.2f} x tolerance)", ["targets-from-the-input"])
     return viols, keys
 
 
@@ -337,12 +357,14 @@ def check_pairs(case):
             continue
         for same_name in (True, False):
             resnames = ["R", "R"] if same_name else ["R", "Q"]
-            for layout in ((0,) if case["tier"] == "quick" and (a + b) % 3 else (0, 1, 2, "skip")):
+            for layout in ((0, "revlines") if case["tier"] == "quick" and (a + b) % 3 else (0, 1, 2, "skip", "revlines")):
                 evals += 1
                 case1 = dict(kind="pair1", a=da["id"], b=db["id"], same_name=same_name, layout=layout)
                 try:
                     # 'skip': the -skip_filter route (templates looked up per residue, not per group), layout 0
-                    top, recs = gen_templates(top_for([da, db], resnames), None, 0 if layout == "skip" else layout, skip_filter=layout == "skip")
+                    # 'revlines': layout 0, the lines of [ bonds ] / [ angles ] written in reverse order
+                    top, recs = gen_templates(top_for([da, db], resnames, reverse_lines=layout == "revlines"), None, 0 if layout in ("skip", "revlines") else layout,
+                                              skip_filter=layout == "skip")
                 except Exception as exc:  # noqa
                     viols.append(crash_violation(exc, case1, assertion="templates-generated"))
                     continue
